@@ -53,9 +53,10 @@ Verdict ==
             IF ~Ev.ok THEN {"create-failed"} ELSE IF CanCreate(Ev.cols) THEN {} ELSE {"create-not-enabled"}
       [] Ev.e = "WriteBatch" ->
             IF Ev.st # 0 THEN {}                                  \* handled as Fail
+            ELSE IF wst = "failed" THEN {}                         \* after a reported failure nothing is promised
             ELSE IF CanWriteBatch(Ev.c + 1, Ev.n, Ev.withDefs, Ev.defs, Ev.vals) THEN {} ELSE {"write-batch-not-enabled"}
-      [] Ev.e = "NewRowGroup" -> IF Ev.st # 0 THEN {} ELSE IF CanNewRowGroup THEN {} ELSE {"new-row-group-not-enabled"}
-      [] Ev.e = "Close" -> IF Ev.st # 0 THEN {} ELSE IF CanClose THEN {} ELSE {"close-not-enabled"}
+      [] Ev.e = "NewRowGroup" -> IF Ev.st # 0 \/ wst = "failed" THEN {} ELSE IF CanNewRowGroup THEN {} ELSE {"new-row-group-not-enabled"}
+      [] Ev.e = "Close" -> IF Ev.st # 0 \/ wst = "failed" THEN {} ELSE IF CanClose THEN {} ELSE {"close-not-enabled"}
       [] Ev.e = "File" ->
             IF wst # "closed" THEN {}                              \* no promise about the file
             ELSE LET chk == FileChecks(Ev.bytes) IN {"file:" \o k : k \in Failed(chk)}
@@ -80,11 +81,13 @@ Verdict ==
       [] Ev.e = "Fault" -> {"fault:" \o Ev.kind}
       [] OTHER -> {"unknown-event"}
 
+\* a second failing call after a failure must not disable the step (the checker would stop silently)
+FailOrStay == IF wst = "open" THEN Fail ELSE UNCHANGED wvars
 Apply ==
     CASE Ev.e = "Create" -> Create(Ev.cols)
-      [] Ev.e = "WriteBatch" -> IF Ev.st # 0 THEN Fail ELSE WriteBatch(Ev.c + 1, Ev.n, Ev.withDefs, Ev.defs, Ev.vals)
-      [] Ev.e = "NewRowGroup" -> IF Ev.st # 0 THEN Fail ELSE NewRowGroup
-      [] Ev.e = "Close" -> IF Ev.st # 0 THEN (IF wst = "open" THEN Fail ELSE UNCHANGED wvars) ELSE Close
+      [] Ev.e = "WriteBatch" -> IF Ev.st # 0 \/ wst = "failed" THEN FailOrStay ELSE WriteBatch(Ev.c + 1, Ev.n, Ev.withDefs, Ev.defs, Ev.vals)
+      [] Ev.e = "NewRowGroup" -> IF Ev.st # 0 \/ wst = "failed" THEN FailOrStay ELSE NewRowGroup
+      [] Ev.e = "Close" -> IF Ev.st # 0 \/ wst = "failed" THEN FailOrStay ELSE Close
       [] OTHER -> UNCHANGED wvars
 
 TInit == WInit /\ l = 1 /\ skip = FALSE /\ bad = <<>> /\ stats = [execs |-> 0, events |-> 0, failed |-> 0]
